@@ -101,6 +101,13 @@ def uk_free(E, st, fr, I, a): do_free(E, st, a[0], 'uk')
 def uk_live(E, st, fr, I, a): return sum(1 for t in st.live.values() if t == 'uk')
 def uk_live_libc(E, st, fr, I, a): return sum(1 for t in st.live.values() if t == 'libc')
 def uk_libc_calls(E, st, fr, I, a): return st.libc_calls
+def uk_blocksize(E, st, fr, I, a):
+    p = a[0]
+    if type(p) is not tuple or p[0] != 'P' or p[1] is None: raise Violation('heap', 'realloc of invalid pointer')
+    o = st.mem.get(p[1])
+    if o is None or o.kind != 'h' or o.dead or p[1] not in st.live: raise Violation('heap', 'realloc of a pointer that is not a live heap block')
+    if p[2] != 0: raise Violation('heap', 'realloc of interior pointer (offset %d)' % p[2])
+    return o.size
 def uk_buf(E, st, fr, I, a):
     n = conc(E, a[0]); oid = E.new_obj(st, n, 'b', E.cstring(st, a[1]) or 'buf'); return ('P', oid, 0)
 def uk_readonly(E, st, fr, I, a):
@@ -177,7 +184,7 @@ def abort(E, st, fr, I, a): raise Violation('abort', 'abort() called')
 TABLE = {
     'uk_sym_bytes': uk_sym_bytes, 'uk_sym_words': uk_sym_words, 'uk_sym_int': uk_sym_int, 'uk_sym_long': uk_sym_long,
     'uk_choice': uk_choice, 'uk_assume': uk_assume, 'uk_assert': uk_assert, 'uk_cover': uk_cover, 'uk_note': uk_note, 'uk_note_text': uk_note_text,
-    'uk_malloc': uk_malloc, 'uk_free': uk_free, 'uk_live': uk_live, 'uk_live_libc': uk_live_libc, 'uk_libc_calls': uk_libc_calls,
+    'uk_malloc': uk_malloc, 'uk_free': uk_free, 'uk_live': uk_live, 'uk_blocksize': uk_blocksize, 'uk_live_libc': uk_live_libc, 'uk_libc_calls': uk_libc_calls,
     'uk_buf': uk_buf, 'uk_readonly': uk_readonly, 'uk_writable': uk_writable, 'uk_kill': uk_kill, 'uk_watch': uk_watch,
     'uk_limit': uk_limit, 'uk_unlimit': uk_unlimit, 'uk_objsize': uk_objsize, 'uk_is_sym': uk_is_sym, 'uk_same_object': uk_same_object,
     'uk_is_heap': uk_is_heap, 'uk_is_global': uk_is_global, 'uk_fail': uk_fail, 'uk_exit': uk_exit, 'uk_concretize': uk_concretize,
